@@ -497,4 +497,35 @@ def InFamily (sch : Schema) : Prop := inFamilyB sch = true
 
 instance (sch : Schema) : Decidable (InFamily sch) := inferInstanceAs (Decidable (_ = true))
 
+/-! ### the same family with the fields in ANY order (Props/C18 `infer_order_insensitive`) -/
+
+/-- conditions on the names of the fields of one record (no condition on their order) -/
+def namesOkU (fs : List Field) : Bool :=
+  fs.all (fun f => nameOk f.1 && pyInt f.1 == .invalid) && nodupStr (fs.map (fun f => f.1))
+
+mutual
+/-- `famTD` without `simpleFirst`: fields / list entries in any order -/
+def wfTD : Ty → Val → Bool
+  | .str, .str s => defStrOk s
+  | .int, .int _ => true
+  | .float, .float _ => true
+  | .bool, .bool _ => true
+  | .anyList, .list [] => true
+  | .list t, .list [] => annTy t
+  | .list t, .list (d :: ds) => (d :: ds).all (fun d => wfTD t d)
+  | .model fs, d => !fs.isEmpty && wfFs fs && namesOkU fs && Val.beq d (defaultRecord fs)
+  | _, _ => false
+def wfFs : List (Str × Ty × Val) → Bool
+  | [] => true
+  | (_, t, d) :: fs => wfTD t d && wfFs fs
+end
+
+def inFamilyUB (sch : Schema) : Bool := wfFs sch && namesOkU sch
+
+/-- the schemas the header syntax can express, fields in ANY order (`InFamily` is the subset
+whose fields are in the order the code builds: simple fields first) -/
+def InFamilyU (sch : Schema) : Prop := inFamilyUB sch = true
+
+instance (sch : Schema) : Decidable (InFamilyU sch) := inferInstanceAs (Decidable (_ = true))
+
 end Rpft.Infer
